@@ -544,7 +544,11 @@ impl Meta {
                 }
                 out = transcript(s.events_since(mark), Norm::STD);
                 let pr = s.rt.verif_probe();
-                if pr.cont == "Stopped" || conts > 50 || failed {
+                if conts > 50 {
+                    // a STOP / END inside a long loop: not a complete run, never compared
+                    return None;
+                }
+                if pr.cont == "Stopped" || failed {
                     break;
                 }
                 // stopped by STOP / END with a continuation available
